@@ -121,6 +121,12 @@ fn bswap32(x: &[u8]) -> [u8; 32] {
 
 impl Point {
 
+    /// Verification hook (read-only): exposes the private `split_theta()`.
+    #[cfg(feature = "verif_hooks")]
+    pub fn verif_split_theta(k: &Scalar) -> (u128, u32, u128, u32) {
+        Self::split_theta(k)
+    }
+
     // Curve equation is: y^2 = x^3 + b  (for a given constant b)
     // We use projective coordinates:
     //   (x, y) -> (X:Y:Z) such that x = X/Z and y = Y/Z
